@@ -206,6 +206,13 @@ fn tracked(mgr: &Option<Arc<Mgr>>) -> Option<Option<usize>> {
 }
 
 pub fn run_one(opts: RunOpts) -> RunResult {
+    // yields in front of tokio mutex acquisitions inside the code under test (vtokio): none in two
+    // runs out of three and in scripted (canonical) runs
+    {
+        let mut r = Rng::new(mix(opts.seed, 5151));
+        let pct = if opts.script.is_some() || std::env::var_os("VMON_NO_PREEMPT").is_some() || r.below(3) != 0 { 0 } else { *r.pick(&[15u64, 40]) };
+        tokio::chaos::configure(mix(opts.seed, 5152), pct);
+    }
     let opts_scripted = opts.script.is_some();
     let mut rng = Rng::new(opts.seed);
     let plan = match opts.plan_override {
@@ -406,6 +413,14 @@ pub fn run_one(opts: RunOpts) -> RunResult {
         lifetimes,
         w.step
     );
+    {
+        let (points, yields) = tokio::chaos::counters();
+        if points > 0 {
+            *w.stats.evals.entry("LOCK-POINTS").or_insert(0) += points;
+            *w.stats.evals.entry("LOCK-YIELDS").or_insert(0) += yields;
+        }
+        tokio::chaos::configure(0, 0);
+    }
     RunResult {
         seed: opts.seed,
         violations: w.violations.clone(),
@@ -820,7 +835,7 @@ async fn lifetime(shared: Shared, local_pk: secp256k1::PublicKey, rng: &mut Rng,
             let mut w = lock(&shared);
             // R20a passive: height used == max told
             if let Some(bw) = &watcher {
-                if let Some(h) = bw.current_height().now_or_never() {
+                if let Some(h) = tokio::chaos::quiet(|| bw.current_height().now_or_never()) {
                     let same = h == w.told_height;
                     w.stats.eval("R20a", same as u64);
                     if h != w.told_height {
